@@ -52,7 +52,6 @@ META = {
                     'join is extracted as data by lex.py; kw/dict handling hand-modelled + statement streams); assumed interface: exact-class converter registry (extracted '
                     'registerConverter table, Python 3 branch, optional third-party types absent), which classes have __sqlrepr__, repr(float) is opaque text; the CPython '
                     'semantics of str.replace / in / % (%s %d %0Nd) / join / repr(int) are built into the embedding and cross-checked only through the text-equality streams',
-                    'string primary keys: ids that look numeric are excluded (the link-table columns are declared INT; that is DDL, C14)',
                     'PostgreSQL runs with standard_conforming_strings=on (default since 9.1), MySQL without NO_BACKSLASH_ESCAPES and ANSI_QUOTES',
                     'ENUM/CHECK DDL: the literal list is the sequence rendering (theorem C02_enum_literal_list); the surrounding column type text is checked by tokenising the real EnumCol type methods and by createTable + inserts on SQLite (its grammar is C14)'],
     'exhaustive': False,
@@ -63,6 +62,21 @@ DIALECTS = ['sqlite', 'mysql', 'postgres', 'firebird', 'sybase', 'maxdb', 'mssql
 META_ALPHABET = ["'", '\\', '\x00', '\n', '\r', '\t', '\b', '\x1a', '%', '_', ';', '-', '/', '*', '1', '"', 'E']
 KEY_INST = 'C02:sqlobject-instance-with-str-id-renders-bare-unquoted-id'
 KEY_PG_OCTAL = 'C02:postgres:NUL-followed-by-octal-digit-decodes-as-octal-escape'
+
+
+
+_seen_keys = {}
+
+
+def class_fail(ctx, key, what, case, limit=4):
+    """report a failure of a recorded CLASS key at most `limit` times per run (the framework keeps 200 failures per run;
+    a class that fires on hundreds of generated cases must not crowd out the sections that run later)"""
+    n = _seen_keys.get((id(ctx), ctx.deep, key), 0)
+    _seen_keys[(id(ctx), ctx.deep, key)] = n + 1
+    if n < limit:
+        ctx.oracle_fail(key, what, case)
+    else:
+        ctx.count('repeat of ' + key)
 
 
 # ------------------------------------------------------------------ encoding for the driver
@@ -435,7 +449,7 @@ def report_string_failure(ctx, d, s, lit, tr, r):
     else:
         key = 'C02:%s:altered:%s' % (d, enc(m))
         what = 'the %s literal %r followed by %r decodes to %r, not to the value %r' % (d, lit, tr, r, s)
-    ctx.oracle_fail(key, what, {'dialect': d, 'string': enc(s), 'minimal': enc(m)})
+    (class_fail if key == KEY_PG_OCTAL else ctx.oracle_fail)(*((ctx, key, what, {'dialect': d, 'string': enc(s), 'minimal': enc(m)}) if key == KEY_PG_OCTAL else (key, what, {'dialect': d, 'string': enc(s), 'minimal': enc(m)})))
 
 
 def gen_strings(ctx):
@@ -536,6 +550,7 @@ def run(ctx):
     run_enum(ctx)
     run_floats(ctx)
     run_binaryish(ctx)
+    run_windowed(ctx)
 
 
 def scalar_value(rng):
@@ -897,9 +912,17 @@ def looks_numeric(s):
         return s.strip() == ''
 
 
-def rand_id(rng):
+ID_NUMERIC = ['007', '1e3', '+5', ' 12', '1.0', '-0', '12 ', '.5', '5.', '1e-2', '00', '9007199254740993', '-7', '0.10']
+LINK_KINDS = ('add', 'radd', 'remove', 'rremove', 'tags', 'docs', 'sqlrelatedjoin-accessor', 'manytomany-accessor', 'manytomany-add',
+              'manytomany-remove')
+KEY_LINK_INT = 'C02:sqlite:str-id:link-table-columns-declared-INT-alter-numeric-looking-keys'
+
+
+def rand_id(rng, numeric_ok=False):
+    if numeric_ok and rng.random() < 0.5:
+        return rng.choice(ID_NUMERIC)
     s = rng.choice(ID_CORPUS) if rng.random() < 0.3 else ''.join(rng.choice(ID_PIECES) for _ in range(rng.randint(1, 4)))
-    return s + 'q' if looks_numeric(s) else s      # the link columns have INT affinity: numeric-looking text is C14's business
+    return s + 'q' if looks_numeric(s) else s
 
 
 def skeleton(d, sql, idmap):
@@ -925,8 +948,11 @@ def run_strids(ctx):
     def raw(q):
         return conn.queryAll(q)
 
+    def lkey(r):
+        return tuple((type(x).__name__, str(x)) for x in r)
+
     def links():
-        return sorted(raw('SELECT %s, %s FROM %s' % (c1, c2, link)))
+        return sorted(raw('SELECT %s, %s FROM %s' % (c1, c2, link)), key=lkey)
     insts = []
     for rnd in range(ctx.budget(40, 1500)):
         for t in (link, Doc.sqlmeta.table, Tag.sqlmeta.table, Note.sqlmeta.table, Item.sqlmeta.table):
@@ -935,7 +961,10 @@ def run_strids(ctx):
         nd, nt = rng.randint(1, 3), rng.randint(1, 3)
         ids = []
         while len(ids) < nd + nt + 1:
-            x = ID_CORPUS[(rnd * 3 + len(ids)) % len(ID_CORPUS)] if rnd < 6 and len(ids) < 3 else rand_id(rng)
+            # string keys that LOOK like numbers in a non-canonical form ('007', '1e3', '+5'): a key column that is not declared
+            # TEXT silently turns them into other values.  Round 1 always has them, later rounds sometimes.
+            numeric_round = rnd == 1 or (rnd > 6 and rnd % 4 == 0)
+            x = ID_CORPUS[(rnd * 3 + len(ids)) % len(ID_CORPUS)] if rnd < 6 and rnd != 1 and len(ids) < 3 else rand_id(rng, numeric_round)
             if x not in ids and not x.startswith('tw'):
                 ids.append(x)
         pairs = {}        # role -> (twin obj, real obj)
@@ -1062,14 +1091,18 @@ def run_strids(ctx):
             ctx.case(('strid', kind, tuple(sorted(idmap.values())), i, j), kind='str-id:' + kind)
             tsk = [skeleton('sqlite', q, idmap) for q in tsql]
             rsk = [skeleton('sqlite', q, {}) for q in rsql]
-            state_ok = links() == sorted(expect[0] + expect[1])
+            state_ok = links() == sorted(expect[0] + expect[1], key=lkey)
             if rout != tout or rsk != tsk or rout not in (None, True) or not state_ok:
                 what = ('%s with string ids: result %r (benign-id twin: %r); statements %r; compared with the twin\'s statements '
                         '(its ids replaced) they tokenise %s; link rows as intended: %r'
                         % (kind, rout, tout, rsql[:3], 'identically' if rsk == tsk else 'DIFFERENTLY', state_ok))
                 if kind in ('selobj', 'inobj') and state_ok:
-                    ctx.oracle_fail(KEY_INST, 'an SQLObject instance with a string id used as a query value (T.q.id == obj, '
+                    class_fail(ctx, KEY_INST, 'an SQLObject instance with a string id used as a query value (T.q.id == obj, '
                                     'IN(col, [obj])) is not rendered as the literal of its id (fixed in 56fe495): ' + what, desc)
+                elif kind.replace('-other-side', '') in LINK_KINDS and any(looks_numeric(x) for x in idmap.values()):
+                    class_fail(ctx, KEY_LINK_INT, 'the link table of a RelatedJoin / ManyToMany between string-keyed classes is created with INT '
+                                    'columns (DBAPI._SO_createJoinTableSQL): SQLite stores the key literal \'007\' as 7, \'1e3\' as 1000 — the '
+                                    'accessor then raises NotFound or returns another object: ' + what, desc)
                 else:
                     ctx.oracle_fail('C02:sqlite:str-id:%s' % kind.replace('-other-side', ''), what, desc)
                 # resynchronise the expectation with the table so that one failure is reported once
@@ -1093,7 +1126,7 @@ def run_strids(ctx):
             got = ref_tokens(d, text + ' )')
             if got is None or got[:-1] != want:
                 if isinstance(o.id, str):
-                    ctx.oracle_fail(KEY_INST, 'sqlrepr(<instance with id %r>, %r) = %r: the bare id text, not a literal' % (o.id, d, text), desc)
+                    class_fail(ctx, KEY_INST, 'sqlrepr(<instance with id %r>, %r) = %r: the bare id text, not a literal' % (o.id, d, text), desc)
                 else:
                     ctx.oracle_fail('C02:%s:instance-value:%s' % (d, spec), 'sqlrepr(instance) = %r' % text, desc)
 
@@ -1387,11 +1420,129 @@ def run_binaryish(ctx):
                         ctx.oracle_fail('C02:%s:binaryish-not-a-literal:%s' % (d, tname), 'sqlrepr(%s, %r) = %r is not one literal' % (tname, d, text), desc)
                 elif r[1] != '' or r[0] not in want:
                     if isinstance(v, memoryview) and r[0].startswith('<memory at '):
-                        ctx.oracle_fail(KEY_MEMORYVIEW, 'sqlrepr(memoryview(%r), %r) = %r: the text of the object\'s repr() is stored / compared '
+                        class_fail(ctx, KEY_MEMORYVIEW, 'sqlrepr(memoryview(%r), %r) = %r: the text of the object\'s repr() is stored / compared '
                                         'instead of its content (StringLikeConverter does str(value) on a memoryview)' % (raw_b, d, text), desc)
                     else:
                         ctx.oracle_fail('C02:%s:binaryish-altered:%s:%s' % (d, tname, raw_b.hex()),
                                         'sqlrepr(%s of %r, %r) = %r decodes to %r, not to the content' % (tname, raw_b, d, text, r[0]), desc)
+
+
+
+# ------------------------------------------------------------------ windowed selects (slices, limit, index): the glue behind the literals
+_win = {}
+KEY_WINDOW_NL = 'C02:firebird+mssql:windowed-select-cut-at-newline-in-data'
+WIN_DATA = ['%', '%%', '%i', '%s', '%d %d', '%(x)s', '100%', 'a%%b', 'a%b', '%%%', "'%'", '%\\', 'x', "it's", 'a;b', '-- %s', '{0}', '{}', '$1',
+            '?', ':x', '%%s', '\\%', 'a_b']
+
+
+def win_env():
+    if _win:
+        return _win
+    sqlo.setup()
+    from sqlobject import SQLObject, StringCol
+    conn = sqlo.mem_conn()
+    cls = type(sqlo.uniq('C02Win'), (SQLObject,), {'_connection': conn, 's': StringCol(default=None)})
+    cls.createTable()
+    rows = {}
+    for v in WIN_DATA + WIN_DATA[:8] + WIN_DATA[:3]:      # duplicates, so that a window has something to cut
+        rows[cls(s=v).id] = v
+    _win.update(conn=conn, cls=cls, rows=rows)
+    return _win
+
+
+def subsequence(small, big):
+    it = iter(big)
+    return all(any(x == y for y in it) for x in small)
+
+
+def run_windowed(ctx):
+    """WHERE / IN / LIKE data inside selects that are sliced, indexed or limited: the window clause is added to the already
+    rendered statement by per-connection glue (`_queryAddLimitOffset`); the literals must come through it untouched"""
+    e = win_env()
+    rng = ctx.rng
+    cls, rows = e['cls'], e['rows']
+    from sqlobject.converters import sqlrepr
+    from sqlobject import sqlbuilder as sb
+    ids = sorted(rows)
+    cases = []
+    for v in WIN_DATA + ['a\nb']:
+        cases.append(('eq', [v]))
+    for _ in range(ctx.budget(120, 5000)):
+        k = rng.choice(['eq', 'in', 'in', 'contains', 'startswith', 'ne'])
+        vs = [rng.choice(WIN_DATA) if rng.random() < 0.8 else rand_string(rng, 4).replace('\x00', '') for _ in range(1 if k != 'in' else rng.randint(1, 3))]
+        cases.append((k, vs))
+    windows = [(None, 1), (None, 2), (1, None), (1, 3), (0, 5), (2, 2), 'i0', 'i1', 'limit2', (None, 0)]
+    for ci, (kind, vs) in enumerate(cases):
+        if kind == 'eq':
+            clause, pred = cls.q.s == vs[0], (lambda r: r == vs[0])
+        elif kind == 'ne':
+            clause, pred = cls.q.s != vs[0], (lambda r: r != vs[0])
+        elif kind == 'in':
+            clause, pred = sb.IN(cls.q.s, vs), (lambda r: r in vs)
+        elif kind == 'contains':
+            clause, pred = cls.q.s.contains(vs[0]), (lambda r: fold(vs[0]) in fold(r))
+        else:
+            clause, pred = cls.q.s.startswith(vs[0]), (lambda r: fold(r).startswith(fold(vs[0])))
+        full = [i for i in ids if pred(rows[i])]
+        base = cls.select(clause, orderBy='id')
+        for w in [windows[(ci + j) % len(windows)] for j in range(3)]:
+            desc = {'kind': kind, 'values': [enc(v) for v in vs], 'window': w}
+            ctx.case(('win', kind, tuple(vs), w), kind='windowed:' + kind)
+            sel = None
+            if w in ('i0', 'i1'):
+                k = int(w[1])
+                want = full[k:k + 1] if k < len(full) else 'IndexError'
+            elif w == 'limit2':
+                want = full[:2]
+            else:
+                want = full[w[0]:w[1]]
+            try:
+                if w in ('i0', 'i1'):
+                    try:
+                        got = [base[k].id]
+                    except IndexError:
+                        got = 'IndexError'
+                elif w == 'limit2':
+                    sel = base.limit(2)
+                    got = [o.id for o in sel]
+                else:
+                    sel = base[w[0]:w[1]]
+                    got = [o.id for o in sel]
+            except Exception as ex:
+                got = 'error:%s: %s' % (type(ex).__name__, str(ex)[:60])
+            if got != want:
+                def bad(x):
+                    try:
+                        return [o.id for o in cls.select(cls.q.s == x, orderBy='id')[:1]] != [i for i in ids if rows[i] == x][:1]
+                    except Exception:
+                        return True
+                m = [minimise(v, bad) for v in vs if bad(v)][:1] or vs[:1]
+                ctx.oracle_fail('C02:sqlite:windowed-select:data=%s' % enc(m[0]),
+                                'select(%s %r)%s on SQLite gives ids %r, expected %r: the data inside the statement is touched by the code that adds the window clause'
+                                % (kind, vs, '[%s]' % (w,), got, want), desc)
+            # ---- rendered text, every dialect: same literals, in order, as the statement without the window
+            if sel is None:
+                continue
+            for d in DIALECTS:
+                try:
+                    plain = sqlrepr(base.queryForSelect(), d)
+                    text = sqlrepr(sel.queryForSelect(), d)
+                except Exception:
+                    ctx.count('windowed: not rendered for %s' % d)
+                    continue
+                tp, tw = ref_tokens(d, plain), ref_tokens(d, text)
+                if tp is None or any(contains_altered(d, v) for v in vs) or (d in ('mysql', 'postgres') and kind in ('contains', 'startswith')
+                                                                             and any(c in LIKE_CTRL for v in vs for c in v)):
+                    continue
+                ok = tw is not None and [t for t in tw if t[0] == 'S'] == [t for t in tp if t[0] == 'S'] and subsequence(tp, tw)
+                if not ok and d in ('firebird', 'mssql') and '\n' in plain and '\n' not in text:
+                    class_fail(ctx, KEY_WINDOW_NL, 'firebird / mssql: `limit_re` (no re.DOTALL) cuts the rendered statement at the first newline '
+                                    'inside the data when a window clause is added: %r -> %r (unterminated literal, the select is refused)'
+                                    % (plain, text), dict(desc, dialect=d))
+                elif not ok:
+                    ctx.oracle_fail('C02:%s:windowed-select-text:%s' % (d, kind),
+                                    'the %s statement with a window, %r, does not carry the literals of the statement without it, %r'
+                                    % (d, text, plain), dict(desc, dialect=d))
 
 
 def replay(case):
